@@ -13,7 +13,7 @@
      flows/routers/switch.go, base.go   Route / matchCase / routeToCategory / RouteTimeout — restricted to CFL:
                                operand @(default(input.text, "")), test has_only_text with literal arguments
      flows/actions/send_msg.go, set_run_result.go, enter_flow.go (+ baseAction.fail) — CFL forms
-     gocommon stringsx.Truncate / TruncateEllipsis
+     gocommon stringsx.Truncate / TruncateEllipsis, utils/truncate.go
 
    Conventions.  Go pointers to runs are indices into the session's run list; a step is addressed by
    (run index, position in that run's path).  The locals of continueUntilWait are kept in an explicit
@@ -272,6 +272,12 @@ Definition truncate (s : text) (limit : Z) (ending : text) : option text :=
 
 Definition ellipsis : text := [46; 46; 46].
 
+(* utils.Truncate / utils.TruncateEllipsis (utils/truncate.go): the limits are arbitrary ints; a negative
+   limit counts as zero and a limit too small for the ellipsis just cuts *)
+Definition trunc (s : text) (limit : Z) : option text := truncate s (Z.max limit 0) [].
+Definition trunc_ellipsis (s : text) (limit : Z) : option text :=
+  if (limit <? 3)%Z then trunc s limit else truncate s limit ellipsis.
+
 (* Results.Save: keyed by (already snake-case) name; changed iff new, or value/category differ *)
 Fixpoint save_result (rs : list result) (x : result) : list result * bool :=
   match rs with
@@ -288,7 +294,7 @@ Arguments Done {A}. Arguments GoErr {A}. Arguments Panicked {A}.
 (* run.SaveResult + run_result_changed (used by set_run_result and routeToCategory) *)
 Definition save_and_log (a : assets) (x : st) (ri : nat) (sr : option stepref)
            (name value catname : text) (nodeid : id) (input : text) : outcome unit :=
-  match truncate value (max_result_chars (a_opts a)) [] with
+  match trunc value (max_result_chars (a_opts a)) with
   | None => Panicked
   | Some v =>
       match get_run (session_ x) ri with
@@ -421,13 +427,13 @@ Definition exec_action (a : assets) (x : st) (ri : nat) (pos : nat) (n : node) (
   let sr := Some (ri, pos) in
   match act with
   | ASendMsg t =>
-      match truncate t (max_template_chars (a_opts a)) ellipsis with
+      match trunc_ellipsis t (max_template_chars (a_opts a)) with
       | None => Panicked
       | Some t' => Done (log_event x ri sr (EMsgCreated t')) tt
       end
   | ASetResult name value cat =>
       (* value is template-free; EvaluateTemplate truncates to MaxTemplateChars first *)
-      match truncate value (max_template_chars (a_opts a)) ellipsis with
+      match trunc_ellipsis value (max_template_chars (a_opts a)) with
       | None => Panicked
       | Some v => save_and_log a x ri sr name v cat (n_id n) []
       end
@@ -456,7 +462,9 @@ Fixpoint exec_actions (a : assets) (x : st) (ri : nat) (pos : nat) (n : node) (a
       | Panicked => Panicked
       | Done x' _ =>
           match run_status (session_ x') ri with
-          | Some RFailed => Done x' true
+          | Some RFailed =>
+              (* a failed run can't enter a flow which an earlier action on this node asked for *)
+              Done (with_session x' (fun s => set_pushed s None)) true
           | _ => exec_actions a x' ri pos n rest
           end
       end
